@@ -33,9 +33,30 @@ ATTR_TEXTS = [
 ]
 
 
+# ONE faulty definition among several good ones of the same kind: each kind is translated in a loop over a Go map, so an error that is kept in a variable and
+# overwritten (or a loop that goes on after the failure) makes the outcome depend on the iteration order; the text must be rejected on every parse
+def one_bad_among_many():
+    out = []
+    good_md = "".join("!%s = !{!0}\n" % n for n in ("a", "b", "d", "e", "f"))
+    out.append(good_md + "!c = !{!0, !99}\n!0 = !{}\n")                                                      # named metadata -> undefined ID
+    out.append("".join("!%d = !{!0}\n" % i for i in range(1, 6)) + "!6 = !{!99}\n!0 = !{}\n")               # metadata definition -> undefined ID
+    out.append("".join("@g%d = global i32 %d\n" % (i, i) for i in range(5)) + "@p = global i32* @undefined.g\n")   # global initialiser -> undefined global
+    out.append("".join("%%t%d = type { i%d }\n" % (i, 8 * (i + 1)) for i in range(5)) + "%bad = type { %undefined.t* }\n\n@g = global %t0 zeroinitializer\n")
+    out.append("".join("$c%d = comdat any\n" % i for i in range(4)) + "\n" + "".join("@g%d = global i32 0, comdat($c%d)\n" % (i, i) for i in range(4)) + "@bad = global i32 0, comdat($undefined.c)\n")
+    out.append("@g = global i32 0\n\n" + "".join("@a%d = alias i32, i32* @g\n" % i for i in range(5)) + "@bad = alias i32, i32* @undefined.g\n")
+    out.append("".join("define void @f%d() {\n\tret void\n}\n\n" % i for i in range(5)) + "define void @bad() {\n\tcall void @undefined.g()\n\tret void\n}\n")
+    out.append("".join("define void @f%d() {\n\tret void\n}\n\n" % i for i in range(5)) + "define i32 @bad() {\n\tret i32 %undefined.x\n}\n")
+    out.append("".join("declare void @f%d() #%d\n\n" % (i, i) for i in range(5)) + "".join("attributes #%d = { nounwind }\n" % i for i in range(5)) + "\n!llvm.x = !{!99}\n")
+    out.append("".join("!%d = !DIFile(filename: \"f%d\", directory: \"d\")\n" % (i, i) for i in range(5)) + "!5 = !DIBasicType(name: \"t\", size: 8, encoding: DW_ATE_signed, flags: DIFlagZero, file: !99)\n")
+    return out
+
+
 def gen(tier, rng, harness=None):
     n = 60 if tier == "quick" else 2500
     lines = []
+    for t in one_bad_among_many():
+        lines.append("!mod.det - %s" % hx(t))
+        lines.append("!mod.mustfail - %s" % hx(t))
     for t in modprops.corpus_texts() + ALIAS_TEXTS + ATTR_TEXTS + [t for _, t, _ in catalog.REPEATS]:
         lines.append("!mod.det - %s" % hx(t))
     # every specialised metadata node with reference-valued fields (also references to NON-EMPTY tuples defined later): the definitions are translated in
